@@ -54,11 +54,20 @@ UserDictOk ==
           ELSE /\ ~x.ok /\ x.stdoutLen = 0 /\ x.stderrLen > 0      \* rejected
                /\ ~x.panic /\ x.exit > 0                           \* ... with an error, not a crash
 
+\* a dictionary is accepted or rejected as a whole: also by commands that need no chord from it
+IdleOk ==
+  LET bn == [k \in {R.bnames[i].name : i \in 1..Len(R.bnames)} |-> R.bnames[CHOOSE i \in 1..Len(R.bnames) : R.bnames[i].name = k].display]
+      acc == Accept(R.uattrs, R.uchords, bn)
+  IN \A u \in 1..Len(R.idle) : LET x == R.idle[u] IN
+       /\ x.terminated /\ ~x.panic
+       /\ (acc => x.ok)
+       /\ (~acc => ~x.ok /\ x.stdoutLen = 0 /\ x.stderrLen > 0 /\ x.exit > 0)
+
 RecOk == CASE R.kind = "skipped" -> TRUE
            [] R.kind = "attrlist" -> AttrListOk
            [] R.kind = "chordlist" -> ChordListOk
            [] R.kind = "builtin" -> BuiltinOk
-           [] R.kind = "userdict" -> UserDictOk
+           [] R.kind = "userdict" -> UserDictOk /\ IdleOk
            [] OTHER -> FALSE
 Inv == RecOk
 =============================================================================
